@@ -1017,12 +1017,20 @@ func doInEval(env Env, lhs types.EntityUID, rhs types.Value) (types.Value, error
 		return types.Boolean(entityInOne(env, lhs, rhsv)), nil
 	case types.Set:
 		query := mapset.Make[types.EntityUID](rhsv.Len())
+		var memberErr error
 		for rhv := range rhsv.All() {
 			e, err := ValueToEntity(rhv)
 			if err != nil {
-				return zeroValue(), err
+				// a set has no order: report the same member's error on every run
+				if memberErr == nil || err.Error() < memberErr.Error() {
+					memberErr = err
+				}
+				continue
 			}
 			query.Add(e)
+		}
+		if memberErr != nil {
+			return zeroValue(), memberErr
 		}
 		return types.Boolean(entityInSet(env, lhs, query)), nil
 	}
